@@ -551,7 +551,7 @@ def g_rows(s, min_rows=1, max_rows=3, header=None):
     return rows
 
 
-DOC_LINES = ["\\ESC", "x\\ESC y", "ESCESC", "\\\\ESC", "\ufeffDELIM", "\ufeff text", "\u200bDELIM", "", " ", "text", "  indented", "Given x", "Scenario: s", "@tag b", "# comment", "#language: fr", "| a |", "OTHER", "ESC", "ESC x ESC",
+DOC_LINES = ["OTHERESC", "x OTHERESC y ESC", "\\ESC", "x\\ESC y", "ESCESC", "\\\\ESC", "\ufeffDELIM", "\ufeff text", "\u200bDELIM", "", " ", "text", "  indented", "Given x", "Scenario: s", "@tag b", "# comment", "#language: fr", "| a |", "OTHER", "ESC", "ESC x ESC",
              "\\DELIM", "Examples:", "\t tab", "      deep", "é\U0001F600", "<a>", "trailing  ", "Feature: f", "* star"]
 
 
@@ -564,7 +564,8 @@ def g_docarg(s):
         if s.int(4) == 0:
             body = g_text(s) + g_trail(s)
         else:
-            body = s.choice(DOC_LINES).replace("OTHER", other).replace("ESC", esc).replace("DELIM", delim)
+            other_esc = "".join("\\" + c for c in other)  # the escaped form of the *other* delimiter stays as written
+            body = s.choice(DOC_LINES).replace("OTHERESC", other_esc).replace("OTHER", other).replace("ESC", esc).replace("DELIM", delim)
         if trim(body).startswith(delim):
             body = "~" + body  # sound by construction: a content line never starts with the active delimiter
         lines.append(g_indent(s) + body)
